@@ -27,6 +27,7 @@ def dispatch (prop : String) (ins outs : List String) : Verdict :=
   | "C15" => C15.run ins outs
   | "C04" => C04.run ins outs
   | "C12" => C12.run ins outs
+  | "C05DA" => C05DA.run ins outs
   | _ => .bad ("unknown property " ++ prop)
 
 partial def loop (h : IO.FS.Stream) (out : IO.FS.Stream) (n : Nat) : IO Unit := do
